@@ -118,6 +118,77 @@ def run_binary(ctx):
     ctx.count("all_compositions_positions", n_comp)
 
 
+# >>> a_c09 (wave 4)
+def run_binary_more(ctx):
+    """the WHOLE rest of the stream after a skip (not only the next token) and two skips in one run (state carried from
+    one skip_container call to the next), lexer and reader, schedules x capacities"""
+    rng = ctx.rng
+    docs = []
+    for _ in range(ctx.scale(120, 1200)):
+        body = B.rand_doc(rng)
+        toks = [("T", 0x2d28), ("EQ",), ("O",)] + body + [("C",)]
+        for _ in range(rng.randrange(1, 3)):
+            toks += [B.wf_fix(B.rand_token(rng), rng) for _ in range(rng.randrange(0, 3))]
+            toks += [("T", 7), ("EQ",), ("O",)] + B.rand_doc(rng, depth=2) + [("C",)]
+        toks += [("Q", b"\x03\x00\x04\x00"), ("T", 9)]
+        docs.append(b"".join(B.enc(t) for t in toks))
+    for _ in range(ctx.scale(40, 400)):
+        # immediate close, and a container whose only content are payloads that look like ids
+        s = b"".join(B.le(rng.choice([B.OPEN, B.CLOSE]), 2) for _ in range(rng.randrange(1, 5)))
+        toks = [("O",), ("C",), ("O",), ("O",), ("C",), ("U", s), ("BOOL", True), ("C",), ("O",), ("Q", s), ("EQ",), ("RGB", (3, 4, 0x00040003)), ("C",), ("I32", 4)]
+        docs.append(b"".join(B.enc(t) for t in toks))
+    # every payload kind filled with words that are themselves lexeme ids (open, close, and ids that announce a payload)
+    idw = [B.OPEN, B.CLOSE, B.QUOTED, B.U32, B.I64, B.BOOL, B.RGB, B.U64, B.F64]
+    for _ in range(ctx.scale(80, 800)):
+        w = lambda n: b"".join(B.le(rng.choice(idw), 2) for _ in range(n))
+        pay = [("I64", int.from_bytes(w(4), "little", signed=True)), ("U64", int.from_bytes(w(4), "little")), ("F64", w(4)),
+               ("I32", int.from_bytes(w(2), "little", signed=True)), ("U32", int.from_bytes(w(2), "little")), ("F32", w(2)),
+               ("Q", w(rng.randrange(1, 4))), ("U", w(rng.randrange(1, 4)) + b"\x03"), ("BOOL", True),
+               ("RGB", (int.from_bytes(w(2), "little"), 4, 3) + ((int.from_bytes(w(2), "little"),) if rng.random() < 0.5 else ()))]
+        rng.shuffle(pay)
+        toks = [("O",)] + pay[:5] + [("O",)] + pay[5:] + [("C",), ("C",), ("T", 0x2d28), ("O",), ("C",), ("T", 0x1234)]
+        docs.append(b"".join(B.enc(t) for t in toks))
+    tc = ["bl.lops\t%s\tT" % hexs(d) for d in docs]
+    timpl, _ = ctx.correspond("tokens_more", tc, nontrivial=lambda c, i: " " in i)
+    tbase = len(timpl) - len(tc)
+    cases, meta = [], []
+    for k, d in enumerate(docs):
+        allt = timpl[tbase + k].split(" ")
+        if not allt[-1].startswith("NONE"):
+            continue
+        opens = [j for j in range(len(allt)) if allt[j].rsplit("@", 1)[0] == "O"]
+        need = max(B.need_of(d), 1)
+        for j in (opens if len(opens) <= 4 else rng.sample(opens, 4)):
+            cc = count_close(allt, j)
+            if cc is None:
+                continue
+            c1 = cc[1]
+            later = [x for x in opens if x > c1]
+            plans = [(["n"] * (j + 1) + ["k", "T"], ["t"] * (j + 1) + ["svo", "T"], c1)]
+            if later:
+                j2 = rng.choice(later)
+                cc2 = count_close(allt, j2)
+                if cc2 is not None:
+                    plans.append((["n"] * (j + 1) + ["k"] + ["n"] * (j2 - c1) + ["k", "T"], ["t"] * (j + 1) + ["svo"] + ["t"] * (j2 - c1) + ["svo", "T"], cc2[1]))
+            for rops, lops, last_close in plans:
+                exp = allt[last_close + 1:]
+                cases.append("bl.lops\t%s\t%s" % (hexs(d), ",".join(lops))); meta.append((k, exp, "lexer"))
+                cases.append("bl.rsops\t%s\t%s" % (hexs(d), ",".join(rops))); meta.append((k, exp, "slice reader"))
+                for s_ in B.schedules(rng, len(d), 1)[:ctx.scale(3, 6)]:
+                    cap = rng.choice([need, need + 1, max(need, 64), 65539])
+                    cases.append("bl.rops\t%s\t%d\t%s\t%s" % (hexs(d), cap, B.sched_str(s_), ",".join(rops))); meta.append((k, exp, "reader cap %d" % cap))
+    impl, _ = ctx.correspond("skip_rest", cases, nontrivial=lambda c, i: "OK@" in i)
+    base = len(impl) - len(cases)
+    for j, (k, exp, who) in enumerate(meta):
+        out = impl[base + j].split(" ")
+        got = out[len(out) - len(exp):] if len(out) >= len(exp) else out
+        if got != exp or not out[len(out) - len(exp) - 1].startswith("OK@"):
+            ctx.fail("skip-rest", "%s: after the skip(s) the stream continues with %s, after the matching close the lexer reads %s" %
+                     (who, " ".join(got[:5]), " ".join(exp[:5])), [cases[j], tc[k]], [impl[base + j][:600]], " ".join(exp[:60]))
+    ctx.count("skip_rest_cases", len(cases))
+# <<< a_c09
+
+
 def run(ctx):
     run_binary(ctx)
 
